@@ -317,9 +317,15 @@ class GeneralDataType(AbstractDataType):
                 self._encoding[ambiguity] = self.codes[ambiguities[ambiguity]]
 
     def encoding(self, string: str) -> int:
+        # codes of more than one character arrive as tuples of characters
+        if not isinstance(string, str):
+            string = ''.join(string)
         return self._encoding.get(string, self.state_count)
 
     def partial(self, string: str, use_ambiguities=True) -> tuple[float, ...]:
+        # codes of more than one character arrive as tuples of characters
+        if not isinstance(string, str):
+            string = ''.join(string)
         # without ambiguities a code that does not resolve to a single state is
         # treated as missing, as the tip-state encoding does
         if string in self.codes and (use_ambiguities or string in self._encoding):
